@@ -4,7 +4,7 @@ CONSTANTS
  MaxReinit = 0 BSChoices = {} FixBlockSize = TRUE  FixLostWorker = TRUE
  CountCalls = TRUE
  NW = 2  NW0 = 2  NWChoices = {2}  BS = 2  Total = 2  Chunk = 1  HdrSz = 1  TailSz = 2
- Timeout = FALSE  Spurious = FALSE  MayFail = FALSE
+ Timeout = FALSE  Spurious = FALSE  MayFail = FALSE MayFailMain = FALSE
  Gives = {0, 1, 100}  Spaces = {0, 1, 100}
  FlushActs = {"FULL_BARRIER"}
  MaxCalls = 4
